@@ -628,20 +628,49 @@ structure RoomMerged (d : Defects) (room : RoomT) (old cand merged : RoomNode) :
     prepareNewAuth d (extendAdmins old.adminNodes room merged.adminNodes) a = .ok ()
   /-- the loaded room will be the parse of the merged definition -/
   parses : ∃ r, merged.parse = .ok r
-  /-- the room row (intended check only) -/
+  /-- the room row that is written (intended check only): the candidate's when it equals the stored
+      one or is a newer `sys.Room` row signed by an admin, the stored one otherwise -/
   roomRow : d.roomRowUnchecked = false →
-    rowEq cand.node old.node = true ∨
-    (old.node.mdate < cand.node.mdate ∧ cand.node.ent = 100 ∧ room.isAdmin cand.node.author cand.node.mdate = true)
+    (rowEq merged.node cand.node = true ∧
+      (rowEq cand.node old.node = true ∨
+       (old.node.mdate < cand.node.mdate ∧ cand.node.ent = 100 ∧ room.isAdmin cand.node.author cand.node.mdate = true))) ∨
+    (rowEq merged.node old.node = true ∧ ¬ old.node.mdate < cand.node.mdate)
   /-- the pass over the stored groups (entitlement of their new entries: `AuthMerged`) -/
   groups : ∃ upd upd', mergeAuths (extendAdmins old.adminNodes room merged.adminNodes) old.authNodes cand.authNodes upd
     = some (.ok (merged.authNodes, upd'))
 
+theorem roomRowFor_ok {d : Defects} {room : RoomT} {old cand : RoomNode} {node : SRow}
+    (h : roomRowFor d room old cand = .ok node) (hd : d.roomRowUnchecked = false) :
+    (rowEq node cand.node = true ∧
+      (rowEq cand.node old.node = true ∨
+       (old.node.mdate < cand.node.mdate ∧ cand.node.ent = 100 ∧ room.isAdmin cand.node.author cand.node.mdate = true))) ∨
+    (rowEq node old.node = true ∧ ¬ old.node.mdate < cand.node.mdate) := by
+  unfold roomRowFor at h
+  simp only [hd, Bool.false_or] at h
+  split at h
+  · next heq =>
+    simp only [Except.ok.injEq] at h; subst h
+    exact Or.inl ⟨by simp [rowEq], Or.inl heq⟩
+  · split at h
+    · next hlt =>
+      split at h
+      · next hc =>
+        simp only [Except.ok.injEq] at h; subst h
+        simp only [Bool.and_eq_true, decide_eq_true_eq] at hc
+        exact Or.inl ⟨by simp [rowEq], Or.inr ⟨hlt, hc.1, hc.2⟩⟩
+      · cases h
+    · next hlt =>
+      simp only [Except.ok.injEq] at h; subst h
+      exact Or.inr ⟨by simp [rowEq], hlt⟩
+
 theorem prepareWithHistory_sound {d : Defects} {room : RoomT} {old cand merged : RoomNode} {upd : Bool}
     (h : prepareWithHistory d room old cand = some (.ok (merged, upd))) : RoomMerged d room old cand merged := by
   unfold prepareWithHistory at h
-  split at h
-  · cases h
-  · next hrow =>
+  cases hrow : roomRowFor d room old cand with
+  | error e => rw [hrow] at h; cases h
+  | ok node =>
+    rw [hrow] at h
+    simp only at h
     cases ha0 : mergeRows old.adminNodes cand.adminNodes with
     | error e => rw [ha0] at h; cases h
     | ok a0 =>
@@ -666,7 +695,7 @@ theorem prepareWithHistory_sound {d : Defects} {room : RoomT} {old cand merged :
             | ok upd2 =>
               rw [hnew] at h
               simp only at h
-              cases hparse : (mergedNode old cand a0 auths).parse with
+              cases hparse : (mergedNode node old cand a0 auths).parse with
               | error e => rw [hparse] at h; cases h
               | ok r =>
                 rw [hparse] at h
@@ -685,12 +714,7 @@ theorem prepareWithHistory_sound {d : Defects} {room : RoomT} {old cand merged :
                   have := checkNewAuths_sound hnew a ha hno
                   rw [hroom1] at this
                   exact ⟨am.newUntouched a ha hno, this.1, this.2⟩
-                · intro hd
-                  simp only [hd, Bool.not_false, Bool.true_and, Bool.not_eq_true', Bool.not_eq_false] at hrow
-                  simp only [Bool.or_eq_true, Bool.and_eq_true, decide_eq_true_eq] at hrow
-                  rcases hrow with h1 | ⟨⟨h1, h2⟩, h3⟩
-                  · exact Or.inl h1
-                  · exact Or.inr ⟨h1, h2, h3⟩
+                · intro hd; exact roomRowFor_ok hrow hd
                 · show ∃ upd upd', mergeAuths (extendAdmins old.adminNodes room (sortAsc (·.mdate) a0)) old.authNodes
                     cand.authNodes upd = some (.ok (auths, upd'))
                   rw [← hroom1]; exact ⟨_, _, hmerge⟩
@@ -758,9 +782,21 @@ theorem prepareWithHistory_congr {room : RoomT} {old cand : RoomNode}
       (old.node.mdate < cand.node.mdate && cand.node.ent = 100 && room.isAdmin cand.node.author cand.node.mdate)) = true)
     (g3 : ∀ a ∈ cand.authNodes, old.authNodes.any (·.node.id = a.node.id) = false → a.userAdminNodes = []) :
     prepareWithHistory Defects.asImplemented room old cand = prepareWithHistory Defects.none room old cand := by
+  have hrow : roomRowFor Defects.asImplemented room old cand = roomRowFor Defects.none room old cand := by
+    unfold roomRowFor
+    simp only [Defects.asImplemented, Defects.none, Bool.true_or, if_true, Bool.false_or]
+    simp only [Bool.or_eq_true, Bool.and_eq_true, decide_eq_true_eq] at g2
+    rcases g2 with h | ⟨⟨h1, h2⟩, h3⟩
+    · simp [h]
+    · by_cases he : rowEq cand.node old.node = true
+      · simp [he]
+      · simp [he, h1, h2, h3]
   unfold prepareWithHistory
-  simp only [Defects.asImplemented, Defects.none, Bool.not_true, Bool.false_and, Bool.false_eq_true, if_false,
-    Bool.not_false, Bool.true_and, g2]
+  rw [hrow]
+  cases roomRowFor Defects.none room old cand with
+  | error e => rfl
+  | ok node =>
+  simp only
   cases ha0 : mergeRows old.adminNodes cand.adminNodes with
   | error e => rfl
   | ok a0 =>
@@ -780,7 +816,6 @@ theorem prepareWithHistory_congr {room : RoomT} {old cand : RoomNode}
           have am := mergeAuths_sound hmerge
           have := checkNewAuths_congr (room := room1) (old := old.authNodes) (l := auths)
             (fun a ha hno => g3 a (am.newUntouched a ha hno) hno)
-          simp only [Defects.asImplemented, Defects.none] at this
           rw [this]
 
 /-- **C07_partial, as an equation**: on candidates that pass `candGuard`, the code as written takes
